@@ -317,6 +317,37 @@ impl Payload for S4 {
 }
 ledger_drop!(S4);
 
+// ---- pointer sized, droppable, with SPECIAL BIT PATTERNS: all zero (looks like a null pointer / an empty word),
+// all ones, one. Not unique: three ledger slots, conservation by count.
+pub const SLOT_P0: u64 = 3;
+pub struct P0(pub usize);
+impl Payload for P0 {
+    const NAME: &'static str = "P0";
+    const UNIQUE: bool = false;
+    fn make(tag: u64, _: u64) -> Self {
+        // half of the values are the all-zero word
+        let (slot, v) = match tag % 4 {
+            0 | 3 => (0, 0),
+            1 => (1, usize::MAX),
+            _ => (2, 1),
+        };
+        ledger().on_make(SLOT_P0 + slot);
+        P0(v)
+    }
+    fn tag(&self) -> u64 {
+        SLOT_P0
+            + match self.0 {
+                0 => 0,
+                usize::MAX => 1,
+                _ => 2,
+            }
+    }
+    fn ok(&self) -> bool {
+        matches!(self.0, 0 | 1 | usize::MAX)
+    }
+}
+ledger_drop!(P0);
+
 // ---- exactly pointer sized ---------------------------------------------------
 /// 8 bytes: 40-bit tag, 24-bit check
 pub struct P8(pub u64);
@@ -530,6 +561,7 @@ macro_rules! with_class {
             "S1" => $f::<$crate::payload::S1>($($a),*),
             "S4" => $f::<$crate::payload::S4>($($a),*),
             "P8" => $f::<$crate::payload::P8>($($a),*),
+            "P0" => $f::<$crate::payload::P0>($($a),*),
             "PB" => $f::<$crate::payload::PB>($($a),*),
             "L16" => $f::<$crate::payload::L16>($($a),*),
             "L40" => $f::<$crate::payload::L40>($($a),*),
